@@ -198,6 +198,8 @@ class SimplifyLogic:
         return node.has_ident() and node.get_ident() == 'set-logic'
 
     def mutations(self, node):
+        if len(node) < 2 or not node[1].is_leaf():
+            return
         logic = node[1]
         cands = []
         repls = {
@@ -214,9 +216,11 @@ class SimplifyLogic:
             'LIRA': 'LRA'
         }
         for r in repls:
-            assert logic.is_leaf()
             if r in logic.data:
-                cands.append(logic.data.replace(r, repls[r]))
+                cand = logic.data.replace(r, repls[r])
+                # never propose the empty logic name (not a token)
+                if cand != '':
+                    cands.append(cand)
         yield from [
             Simplification({node.id: Node('set-logic', c)}, []) for c in cands
         ]
